@@ -1554,6 +1554,27 @@ class Interp:
         missing = {n for n in names if n not in spec.havoc and n not in targets and n not in spec.scratch and n in read_outside}
         if missing:
             raise Unsupported(f"loop `{self.loop_label(s, fr)}` assigns {sorted(missing)} which the sidecar invariant does not havoc")
+        # native containers mutated in place by the body (x.append(..), x[k] = .., del x[k]): the body is executed once, at an arbitrary
+        # iteration, so a concrete container carried in from before the loop would be a wrong pre-state -- it must be havocked as well
+        mutated = set()
+        for st in s.body:
+            for n in ast.walk(st):
+                if isinstance(n, ast.Call) and isinstance(n.func, ast.Attribute) and isinstance(n.func.value, ast.Name) and n.func.attr in _MUTATORS:
+                    mutated.add(n.func.value.id)
+                elif isinstance(n, (ast.Assign, ast.AugAssign, ast.Delete)):
+                    tg = n.targets if isinstance(n, (ast.Assign, ast.Delete)) else [n.target]
+                    for t in tg:
+                        if isinstance(t, ast.Subscript) and isinstance(t.value, ast.Name):
+                            mutated.add(t.value.id)
+        for n in sorted(mutated):
+            if n in spec.havoc or n in spec.scratch or n in targets or (n in names and n not in read_outside):
+                continue
+            try:
+                v = self.lookup(fr, n)
+            except Exception:
+                continue
+            if isinstance(v, (list, dict, set, bytearray)):
+                raise Unsupported(f"loop `{self.loop_label(s, fr)}` mutates the container `{n}` in place, which the sidecar invariant does not havoc")
 
     def cut_for(self, s, fr, seq):
         ex = self.ex
@@ -1632,6 +1653,10 @@ class Interp:
         if self.truth(self.ev(s.test, fr), s.test):
             raise PathEnd()  # exit mode: the guard is false
         self.block(s.orelse, fr)
+
+
+_MUTATORS = {"append", "extend", "insert", "pop", "remove", "clear", "add", "update", "discard", "setdefault", "popitem", "sort", "reverse",
+             "intersection_update", "difference_update", "symmetric_difference_update", "appendleft"}
 
 
 class LoopSpec:
